@@ -10,9 +10,9 @@ TRUSTED_BASE = [
     "property, and here again on the SCALED input c*x (Burg, Yule-Walker, correlation, periodogram, adaptive multitaper)",
     "SVD-based decisions (MUSIC/EV subspace, threshold, AIC/MDL) are covered relative to the SVD contract; checked by the oracle",
 ]
-PARTIAL = ["scale invariance of the complete adaptive multitaper iteration (the stopping test compares with a tolerance proportional to "
-           "the signal power): proved per evaluation of the weight formula; the whole loop is checked by correspondence and the oracle",
-           "MUSIC/EV: relative to the SVD parameter (singular values scale by |c|, right singular subspaces unchanged)"]
+PARTIAL = ["MUSIC/EV: relative to the SVD parameter (singular values scale by |c|, right singular subspaces unchanged)",
+           "adaptive multitaper: the whole 100-pass loop is proved scale-free in exact arithmetic (C03.mt_adapt_scale_data); a floating-point "
+           "run whose distance sits exactly at the tolerance could stop one pass apart - outside the model"]
 ASSUMPTIONS = ["1e-3 <= |c| <= 1e3; complex c for complex data; orders/lags/NFFT inside each estimator's documented domain"]
 RULE = ("random data (real/complex) x scalars c in {1e-3, -3, 1e3, 2-1j, 1e-3j, random} x every functional estimator and every class "
         "variant (14) x all six Burg criteria x eigen criteria (aic, mdl, threshold, explicit NSIG)")
